@@ -4,8 +4,8 @@ CONSTANTS
   AddrOf <- MCAddrOf
   HopOf <- MCHopOf
   Dests <- MCDests
-  Txs <- MCTxs
-  Ticks <- MCTicks
-  MaxTicks = 6
+  Txs <- SimTxs
+  Ticks <- SimTicks
+  MaxTicks = 5
   MaxObj = 99
 INVARIANTS EmitInv
